@@ -97,8 +97,14 @@ def split(prop, tier, seed):
     rng.shuffle(cases)
     cases = [dict(hours=49, freq='h', interval='d', storage=False, orderbook='last', pseed=7), dict(hours=72, freq='4h', interval='d', storage=True, orderbook='first', pseed=8),
              dict(hours=48, freq='h', interval='d', storage=False, orderbook=None, plant=True, pseed=9),
-             dict(hours=48, freq='h', interval='d', storage=False, orderbook=None, infeasible_interval=True, pseed=3)] + cases
-    b = run_cases(sc.check_split, cases[:_n(tier, 11, 15)], 'split vs unsplit on a two-node portfolio (optionally with a storage, with an order book as first / last asset, one order per day, with a plant whose fuel efficiency differs from day to day); horizons aligned / one step over / several steps over the interval size; value, balance, step numbering, DCF accounting of the split problem',
+             dict(hours=48, freq='h', interval='d', storage=False, orderbook=None, infeasible_interval=True, pseed=3),
+             # grid in another main time unit, discounted assets (C12 for the split set-up)
+             dict(hours=72, freq='h', interval='d', storage=False, orderbook=None, unit='d', wacc=0.5, pseed=11),
+             dict(hours=60, freq='4h', interval='d', storage=True, orderbook=None, unit='d', wacc=0.3, pseed=12),
+             # anchored interval size, horizon starting off the anchor (Wednesday, weeks start on Sunday) / on it
+             dict(hours=240, freq='4h', interval='W', storage=False, orderbook=None, start='2021-01-06', pseed=13),
+             dict(hours=336, freq='4h', interval='W', storage=True, orderbook=None, start='2021-01-03', pseed=14)] + cases
+    b = run_cases(sc.check_split, cases[:_n(tier, 15, 19)], 'split vs unsplit on a two-node portfolio (optionally with a storage, grid in main time unit h or d with discounting, with an order book as first / last asset, one order per day, with a plant whose fuel efficiency differs from day to day); horizons aligned / one step over / several steps over the interval size; value, balance, step numbering, DCF accounting of the split problem',
                   'horizons up to 72 h, interval d', 60 if tier == 'quick' else 300)
     b['failures'] = [f for f in b['failures'] if f['name'].startswith(prop) or f.get('error')]
     return dict(bounded=b)
@@ -120,7 +126,14 @@ def fix_window(prop, tier, seed):
     rng.shuffle(scases)
     b2 = run_cases(sc.check_fix_window_split, scases[:_n(tier, 8, 36)], 'fix_time_window handed to the split set-up (window as mask, index list or date; inside one interval or across the interval boundary), previous solution from the same split',
                    'hourly grids of 48-60 steps split by day', 60 if tier == 'quick' else 300)
-    return dict(bounded=_merge(b1, b2))
+    pc = []
+    for _ in range(_n(tier, 16, 80)):
+        T = rng.randint(5, 8)
+        s0 = rng.choice([0, 2, 3])
+        pc.append(dict(T=T, s0=s0, W=rng.randint(s0, T - 2), seed=rng.randint(0, 9999), order=rng.random() < .5, date=rng.random() < .3))
+    b3 = run_cases(sc.check_fix_window_plant, pc, 'a plant with on / start binaries and its own start (0-3 steps after the grid start) selling into a market: first W+1 steps fixed (mask or date), new prices; optimum vs closed form (fixed part at the new prices + best on/off plan of the remaining steps by dynamic programming)',
+                   'hourly grids of 5-8 steps', 60 if tier == 'quick' else 300)
+    return dict(bounded=_merge(_merge(b1, b2), b3))
 
 
 @provider('C18')
@@ -161,7 +174,9 @@ def scaled(prop, tier, seed):
     cases = [dict(T=T, window=w, norm=S, scale=s, rate=r, base=rng.choice(['storage', 'must_take', 'load']), pseed=rng.randint(0, 999)) for T in (8,) for w in ((0, 8), (2, 6), (3, 8)) for S in (1., 4.)
              for s in (0.5, 1., 2.) for r in (0., 0.25)]
     rng.shuffle(cases)
-    return dict(bounded=run_cases(sc.check_scaled, cases[:_n(tier, 10, 36)], 'ScaledAsset(Storage / must-take contract / fixed load) held at a fixed scale vs the base asset with capacities x s/S less s x rate x active duration; windows at / after the grid start',
+    # a base asset with internal (non-dispatch) variables: a structured asset with an internal node
+    cases = [dict(T=6, window=(0, 6), norm=1., scale=2., rate=.25, base='structured', pseed=5), dict(T=8, window=(2, 7), norm=4., scale=2., rate=0., base='structured', pseed=6)] + cases
+    return dict(bounded=run_cases(sc.check_scaled, cases[:_n(tier, 12, 38)], 'ScaledAsset(Storage / must-take contract / fixed load / structured asset with an internal node) held at a fixed scale vs the base asset with capacities x s/S less s x rate x active duration; windows at / after the grid start',
                                   'hourly grid of 8 steps', 50 if tier == 'quick' else 300))
 
 
@@ -294,6 +309,21 @@ def storage_physics(prop, tier, seed):
 
 
 @provider('C06')
+def chp_ramp_profiles(prop, tier, seed):
+    rng = random.Random(seed + 47)
+    cases = []
+    for _ in range(_n(tier, 30, 200)):
+        prof = rng.choice([[2., 4.], [1., 2., 3.], [3.]])
+        L = len(prof)
+        tar = max(0, rng.choice([0, 1, L - 1, L, L, L + 1]))
+        last = prof[tar - 1] if 0 < tar <= L else (rng.choice([4., 6.]) if tar > L else 0.)
+        cases.append(dict(T=rng.randint(4, 7), seed=rng.randint(0, 9999), profile=prof, min_cap=4., max_cap=rng.choice([10., 20.]), ramp=rng.choice([2., 3.]), tar=tar, last=last,
+                          order=rng.random() < .5, shutdown=rng.choice([None, None, [3., 2.]]), slack=rng.choice([0., 0., .5])))
+    return dict(bounded=run_cases(sc.check_chp_ramp_profiles, cases, 'optimised Plant with a start ramp profile (1-3 steps, exact or with slack), optionally a shutdown profile, an ordinary ramp and a declared initial state (off / inside the profile / profile just completed / running longer): profile followed after every start, capacity band and ramp afterwards incl. the first step relative to the last dispatch, no output when off',
+                                  'hourly grids of 4-7 steps', 60 if tier == 'quick' else 400))
+
+
+@provider('C06')
 def chp_physics(prop, tier, seed):
     rng = random.Random(seed + 41)
     cases = []
@@ -353,8 +383,11 @@ def coarse_kinds(prop, tier, seed):
              for c in (dict(hours=24, coarse='4h'), dict(hours=30, coarse='6h'), dict(dst=True, hours=0, coarse='W'))]
     rng.shuffle(cases)
     # discounting inside a coarse interval: known finding D27 (one deterministic case)
-    cases = [dict(kind='simple', first=True, seed=5, hours=48, coarse='d', wacc=.8, d27=True)] + cases
-    return dict(bounded=run_cases(sc.check_coarse_kinds, cases[:_n(tier, 13, 13)], 'assets of four kinds on a coarser frequency than the portfolio (4h / 6h on hourly grids incl. a partial last interval; weekly on a daily CET grid over the DST switch): set-up succeeds, well-formed, constant rate within each coarse interval, transport efficiency per fine step, optimum = fine portfolio + equalities (uniform grids)',
+    cases = [dict(kind='simple', first=True, seed=5, hours=48, coarse='d', wacc=.8, d27=True),
+             # take limits over a window aligned with the coarse steps (define_restr on the coarse grid)
+             dict(kind='take', first=True, seed=21, hours=24, coarse='6h', take_window=(6, 18), take=8.),
+             dict(kind='take', first=False, seed=22, hours=48, coarse='d', take_window=(0, 24), take=20.)] + cases
+    return dict(bounded=run_cases(sc.check_coarse_kinds, cases[:_n(tier, 15, 15)], 'assets of five kinds (incl. a contract with minimum / maximum take over a window) on a coarser frequency than the portfolio (4h / 6h on hourly grids incl. a partial last interval; weekly on a daily CET grid over the DST switch): set-up succeeds, well-formed, constant rate within each coarse interval, transport efficiency per fine step, optimum = fine portfolio + equalities (uniform grids)',
                                   'grids of 14-30 steps', 50 if tier == 'quick' else 200))
 
 
@@ -362,7 +395,10 @@ def coarse_kinds(prop, tier, seed):
 def optimize_random(prop, tier, seed):
     rng = random.Random(seed + 73)
     cases = [dict(seed=rng.randint(0, 999999), mip=rng.random() < .4, all_fixed=rng.random() < .15, shuffle=rng.random() < .5) for _ in range(_n(tier, 80, 600))]
-    return dict(bounded=run_cases(sc.check_optimize_random, cases, 'random small problems handed to OptimProblem.optimize (1-5 variables, 0-4 rows of random types U/L/S/N, duplicated / shuffled mapping rows, boolean flags on variables with bounds other than 0/1, all variables fixed): feasibility, row satisfaction by type, boolean flags, value = -c.x, optimality and failure <=> infeasible against scipy milp',
+    for c in cases:
+        if not c['all_fixed'] and rng.random() < .3:
+            c['inf'] = True
+    return dict(bounded=run_cases(sc.check_optimize_random, cases, 'random small problems handed to OptimProblem.optimize (1-5 variables, 0-4 rows of random types U/L/S/N, duplicated / shuffled mapping rows, boolean flags on variables with bounds other than 0/1, all variables fixed, one-sided variables with an infinite bound): feasibility, row satisfaction by type, boolean flags, value = -c.x, optimality and failure <=> infeasible against scipy milp',
                                   '<= 5 variables, <= 4 rows', 60 if tier == 'quick' else 400))
 
 
